@@ -73,3 +73,17 @@ def register(R, tier="quick"):
                           "?/* quantifiers), TermRange (open/closed/unbounded), NumericRange (8-bit signed, step 2), Every; "
                           "quick 1000 corpora, thorough 20000",
                     note="matched set through search / docs_for_query / Query.docs / len(limit=1) vs brute-force evaluators")
+
+
+    def sfn(tier_, seed):
+        out = run_native("structures_bounded.py", [1 if tier_ == "quick" else 6, seed])
+        for f in out.get("failures", []):
+            f["snippet"] = ("import runpy, sys\nsys.argv = ['structures_bounded.py', '1', %r]\n"
+                            "runpy.run_path(%r, run_name='__main__')\n" % (str(seed), os.path.join(ROOT, "bounded", "structures_bounded.py")))
+        return out
+    R.bounded_check("structures-bounded@C20", ["C20"], sfn,
+                    bound="id sets: all 2048 subsets of 11 ids straddling byte boundaries x probes 0..26 x 7 classes, 48x48 "
+                          "(thorough 288x288) ordered pairs for binary ops; hash/ordered files: 60 (360) random key maps incl. "
+                          "empty/long/duplicate keys; varints 0..2^14 and 2^e+-1 up to 2^70; delta, GrowableArray thresholds, "
+                          "base85; SortingPool with run sizes 1..1000; compound files with writes crossing the buffer",
+                    note="real structures vs Python set/dict/list models; see bounded/structures_bounded.py")
